@@ -7,6 +7,82 @@ from analysis.guards import GuardFlow, resolve_cond
 
 MSG_LISTS = ('StoryState::current_errors', 'StoryState::current_warnings')
 
+# iterator adaptors that hand on the elements of the sequence(s) they are applied to: the receiver, and for the
+# two-sequence adaptors the argument as well (`errors.iter().chain(warnings.iter())` yields the elements of both)
+SEQ_ADAPTORS_2 = ('chain', 'zip')
+SEQ_ADAPTORS_1 = ('map', 'filter', 'filter_map', 'map_while', 'inspect', 'rev', 'skip', 'take', 'skip_while', 'take_while',
+                  'step_by', 'enumerate', 'peekable', 'cloned', 'copied', 'fuse', 'by_ref', 'flatten', 'flat_map', 'scan',
+                  'cycle', 'collect')
+
+
+class SequenceTracer(Tracer):
+    """Provenance of a delivered message: as Tracer, and an element that comes out of an iterator adaptor comes from
+    every sequence the adaptor was built over (Tracer stops at `Iterator::chain` / `map` / `zip` as at any other call)."""
+
+    def _call(self, fn, t, seen, out):
+        cs = callee_short(t)
+        head, _, name = cs.rpartition('::')
+        if (head == 'Iterator' or head.endswith(' as Iterator>')) and t['args']:
+            n = 2 if name in SEQ_ADAPTORS_2 else 1 if name in SEQ_ADAPTORS_1 else 0
+            if n:
+                out.add('via:' + cs)
+                for a in t['args'][:n]:
+                    self._operand(fn, a, seen, out)
+                return
+        Tracer._call(self, fn, t, seen, out)
+
+
+# ---- what a condition says about StoryState::current_errors
+ELEMENT_ACCESS = {'first', 'last', 'get', 'split_first', 'split_last', 'first_mut', 'last_mut', 'get_mut', 'next', 'peek',
+                  'index', 'index_mut'}
+LIST_PASS = {'deref', 'deref_mut', 'as_slice', 'as_mut_slice', 'as_ref', 'as_mut', 'borrow', 'iter', 'iter_mut', 'into_iter',
+             'by_ref', 'len'}
+
+
+def _errors_list_only(prog, atoms):
+    """The value is the current_errors list itself (reached through getters / deref / iter), or one access to an element
+    of it: -> (True, set of element-access names on the way); anything else -> (False, None)."""
+    if fields_of(atoms) & set(MSG_LISTS) != {'StoryState::current_errors'}:
+        return False, None
+    if any(a.startswith(('call:', 'agg:', 'op:', 'cast:', 'const:', 'upvar:')) or a in ('other', 'indexed') for a in atoms):
+        return False, None
+    elem = set()
+    for a in atoms:
+        if not a.startswith('via:'):
+            continue
+        cs = a[4:]
+        nm = cs.rsplit('::', 1)[-1]
+        if nm in ELEMENT_ACCESS:
+            elem.add(nm)
+        elif nm not in LIST_PASS and not prog.by_short.get(cs):
+            return False, None      # (a repository function on the way is a getter summary: `get_current_errors`)
+    return True, elem
+
+
+def errors_test(prog, desc):
+    """'nonempty' when the condition being true means current_errors has an element (`has_error()`, `first()` / `get(i)`
+    / `iter().next()` on the list is Some, `len() > 0`), 'empty' when it means the list has none (`is_empty()`,
+    `len() == 0`), None for any other condition.  (has_error() is `!current_errors.is_empty()`; the three spellings
+    are the same test.)"""
+    if desc[0] == 'call':
+        if desc[1] == 'StoryState::has_error':
+            return 'nonempty'
+        if desc[1] in ('Vec::is_empty', '[T]::is_empty'):
+            ok, elem = _errors_list_only(prog, desc[2])
+            return 'empty' if ok and not elem else None
+        return None
+    if desc[0] == 'is_some':
+        ok, elem = _errors_list_only(prog, desc[1])
+        return 'nonempty' if ok and elem and 'len' not in {a.rsplit('::', 1)[-1] for a in desc[1]} else None
+    if desc[0] == 'cmp' and isinstance(desc[3], int) and not isinstance(desc[3], bool):
+        ok, elem = _errors_list_only(prog, desc[2])
+        if not ok or elem or not any(a in ('via:Vec::len', 'via:[T]::len') for a in desc[2]):
+            return None
+        return {('Gt', 0): 'nonempty', ('Ne', 0): 'nonempty', ('Ge', 1): 'nonempty', ('rLt', 0): 'nonempty',
+                ('rNe', 0): 'nonempty', ('rLe', 1): 'nonempty', ('Eq', 0): 'empty', ('Lt', 1): 'empty', ('Le', 0): 'empty',
+                ('rEq', 0): 'empty', ('rGt', 1): 'empty', ('rGe', 0): 'empty'}.get((desc[1], desc[3]))
+    return None
+
 
 def cleared_fields(prog, fn, tr, depth=0, seen=None):
     """Fields of StoryState whose Vec is emptied (clear / truncate(0) / assigned a new Vec) by fn or its callees."""
@@ -38,6 +114,7 @@ def cleared_fields(prog, fn, tr, depth=0, seen=None):
 
 def run(chk, prog):
     tr = Tracer(prog)
+    seq = SequenceTracer(prog)
     chk.not_decided += ['exact multiplicity of delivery across nested continues at run time',
                         'that message texts are the ones Ink prescribes']
     R_A = 'C13.delivered-is-cleared'
@@ -75,7 +152,7 @@ def run(chk, prog):
     deliveries = []
     for bb, t in ci.calls():
         if is_dyn_call(t) and callee_short(t).endswith('ErrorHandler::error'):
-            lists = fields_of(tr.prov(ci, t['args'][1])) & set(MSG_LISTS)
+            lists = fields_of(seq.prov(ci, t['args'][1])) & set(MSG_LISTS)
             deliveries.append((bb, t, lists))
     chk.floor(R_A, 'dyn calls of ErrorHandler::error in continue_internal', len(deliveries), 2)
     clearing = {lst: [] for lst in MSG_LISTS}     # blocks of continue_internal that empty the list
@@ -110,7 +187,7 @@ def run(chk, prog):
         for bb, t in fn.calls():
             if not (is_dyn_call(t) and callee_short(t).endswith('ErrorHandler::error')) or len(t['args']) < 2:
                 continue
-            lists = fields_of(tr.prov(fn, t['args'][1])) & set(MSG_LISTS)
+            lists = fields_of(seq.prov(fn, t['args'][1])) & set(MSG_LISTS)
             if not lists:
                 continue
             gfn = gfn or cfg(fn)
@@ -187,25 +264,36 @@ def run(chk, prog):
 
     # ---- (c) Err exit only on has_error = true and not after reset_errors
     def atom_ci(desc):
-        if desc[0] == 'call' and desc[1] == 'StoryState::has_error':
-            return 'has_error'
-        return None
-    gfc = GuardFlow(prog, ci, atom_ci, tracer=tr)
+        return {'nonempty': 'has_error', 'empty': 'no_error'}.get(errors_test(prog, desc))
+    # (`len` is looked through for this test only, so that `get_current_errors().len() > 0` is seen as a test of the list)
+    gfc = GuardFlow(prog, ci, atom_ci, tracer=Tracer(prog, extra_transparent=('Vec::len', '[T]::len')))
     gfc.run()
     # Err exits located after the delivery test (blocks reachable from the first has_error/has_warning test of the
     # delivery block = blocks dominated by the decrement of recursive_continue_count)
     dec_blocks = [bb for bb, si, s in ci.stmts() if s['k'] == 'assign' and field_leaf(s['pl']) == 'recursive_continue_count'
                   and s['rv']['k'] in ('binop', 'use') and _is_sub(ci, s)]
+    # locals whose value is what the function returns: _0, the spliced helpers' return slots, and every local that is
+    # moved (through plain uses) into one of those - `let mut outcome = Ok(()); .. outcome = Err(..); .. outcome`
+    ret_like = {0} | set(ci.ret_locals)
+    grew = True
+    while grew:
+        grew = False
+        for bb, si, s in ci.stmts():
+            if s['k'] == 'assign' and 'p' not in s['pl'] and s['pl']['l'] in ret_like and s['rv']['k'] == 'use' \
+                    and s['rv']['op'].get('k') in ('move', 'copy') and not s['rv']['op']['pl'].get('p') \
+                    and s['rv']['op']['pl']['l'] not in ret_like:
+                ret_like.add(s['rv']['op']['pl']['l'])
+                grew = True
     err_blocks = []
     for bb, si, s in ci.stmts():
         if s['k'] == 'assign' and s['rv']['k'] == 'agg' and s['rv'].get('adt', '').endswith('result::Result') \
-                and s['rv'].get('var') == 'Err' and 'p' not in s['pl'] and (s['pl']['l'] == 0 or s['pl']['l'] in ci.ret_locals):
+                and s['rv'].get('var') == 'Err' and 'p' not in s['pl'] and s['pl']['l'] in ret_like:
             err_blocks.append(bb)
     late_err = [b for b in err_blocks if dec_blocks and any(g.dominates(d, b) for d in dec_blocks)]
     if chk.anchor(R_C, 'Err exit in the delivery block of continue_internal', late_err):
         for i, eb in enumerate(late_err):
-            vals = gfc.valuations_at(eb, ['has_error'])
-            only_true = all(v.get('has_error') is True for v in vals) and vals
+            vals = gfc.valuations_at(eb, ['has_error', 'no_error'])
+            only_true = all(v.get('has_error') is True or v.get('no_error') is False for v in vals) and vals
             after_reset = any(eb in g.reachable([rb]) for rb in reset_blocks)
             chk.decide(R_C, chk.key(R_C, 'continue_internal', 'err-exit#%d' % i), bool(only_true) and not after_reset,
                        'Err exit reached only with has_error() = true and never after reset_errors',
